@@ -44,6 +44,7 @@ mod varc;
 mod vars;
 mod stackm;
 mod bytecodem;
+mod blendm;
 mod glyfm;
 mod varsm;
 mod layoutm;
@@ -97,6 +98,7 @@ pub const GROUPS: &[(&str, fn(&mut Ctx))] = &[
     ("aats.model", aatsm::run),
     ("ps.stack.model", stackm::run),
     ("glyf.bytecode.model", bytecodem::run),
+    ("ps.blend.model", blendm::run),
 ];
 
 /// plumbing self-test groups (only with `C01_HAND_SELFTEST=1`): a call that never returns and a call
